@@ -11,8 +11,10 @@ from .instance import INTRINSICS_DOC
 
 TIERS = {
     # N = arena slots for the inductive step; max_expired = physically present expired entries at operation time
-    'quick': {'N': 5, 'max_expired': 1, 'N_heavy': 4, 'N_readonly': 7, 'timeout_ms': 300000},
-    'thorough': {'N': 6, 'max_expired': 2, 'N_heavy': 5, 'N_readonly': 8, 'timeout_ms': 1200000},
+    # N = arena slots for map/set mutating steps, N_key for the key tree, N_readonly for read-only map/set steps,
+    # N_heavy for the checks that run (nearly) every harness
+    'quick': {'N': 5, 'N_key': 5, 'max_expired': 1, 'N_heavy': 4, 'N_readonly': 7, 'timeout_ms': 300000},
+    'thorough': {'N': 7, 'N_key': 6, 'max_expired': 2, 'N_heavy': 5, 'N_readonly': 8, 'timeout_ms': 1800000},
 }
 READ_ONLY = {'index_after', 'index_before', 'first_index_less', 'first_index_less_by', 'value_by_index', 'get_value', 'is_empty'}
 HEAVY = {'C10', 'C02', 'C11', 'C18'}        # properties that run many harnesses: one size smaller in the quick tier
@@ -28,12 +30,16 @@ def run(pid, tier, seed, procs=None):
     mir, mirhash, mir_s = common.dump_mir()
     N = cfg['N_heavy'] if pid in HEAVY and tier == 'quick' else cfg['N']
     if pid in HEAVY and tier == 'thorough':
-        N = cfg['N_heavy'] + 1 if pid in ('C02', 'C11') else cfg['N_heavy']
+        N = cfg['N'] if pid in ('C02', 'C11') else cfg['N_heavy']
+    if os.environ.get('VERIF_N'):
+        N = int(os.environ['VERIF_N'])           # experiments only
     step_specs = []
     for kind, op in plan.steps_for(pid):
         n_op = N
+        if kind == 'key' and N > cfg['N_key']:
+            n_op = cfg['N_key']
         if kind in ('map', 'set') and op in READ_ONLY and pid not in HEAVY:
-            n_op = cfg['N_readonly']       # read-only operations are cheap: larger arenas (rarer shapes, e.g. a 3-deep inner spine needs 6 entries)
+            n_op = cfg['N_readonly'] - (1 if pid == 'C08' and tier == 'quick' else 0)       # read-only operations are cheap: larger arenas (rarer shapes, e.g. a 3-deep inner spine needs 6 entries)
         spec = {'kind': kind, 'op': op, 'N': n_op, 'timeout_ms': cfg['timeout_ms'], 'check_callbacks': pid == 'C18', 'tags': plan.tags_for(pid)}
         if kind == 'key':
             spec['max_expired'] = cfg['max_expired']
@@ -252,7 +258,7 @@ def finish(pid, tier, seed, t0, mirhash, mir_s, N, cfg, step_res, hist_res, lemm
                            'transitions = obligations discharged by the solver (memory-safety/panic/unwinding obligations + tagged post-conditions)',
             'engine': 'mirsym: symbolic execution of rustc MIR + z3 (QF_BV), MIR regenerated from /repo working tree',
             'mir_sha256': mirhash, 'mir_dump_s': round(mir_s, 1),
-            'bounds': {'arena_slots_N': N, 'arena_slots_N_read_only_ops': cfg['N_readonly'], 'max_entries': N - 1, 'key_bits': 8, 'expiration_bits': 8, 'value_bits': 8,
+            'bounds': {'arena_slots_N': N, 'arena_slots_N_key_tree': min(N, cfg['N_key']), 'arena_slots_N_read_only_ops': cfg['N_readonly'], 'max_entries': N - 1, 'key_bits': 8, 'expiration_bits': 8, 'value_bits': 8,
                        'max_expired_entries_at_op_time': cfg['max_expired'], 'history_templates': len(hist_res),
                        'history_max_inserts': 4 if tier == 'thorough' else 3,
                        'outside': 'arenas with more slots than N; histories longer than the templates; V with side-effecting Clone/Drop; allocation failure'},
